@@ -96,8 +96,10 @@ pub const ALL_EX: [ExchangeId; 4] = [ExchangeId::Mock, ExchangeId::BinanceSpot, 
 /// an exchange no collection ever contains
 pub const ALIEN_EX: ExchangeId = ExchangeId::Poloniex;
 const ASSET_INT: [&str; 5] = ["btc", "eth", "sol", "usdc", "usdt"];
-const ASSET_EXC: [&str; 6] = ["BTC", "ETH", "SOL", "USDC", "USDT", "XBT"];
-/// instrument names: internal `ins01..`, exchange `SYM01..`
+/// (mixed case on purpose - Bitfinex lists both `USt` and `UST` - so that every name has distinct
+/// upper- and lower-case variants; still in ascending order as strings)
+const ASSET_EXC: [&str; 6] = ["BTC", "ETH", "SOL", "USDC", "USDt", "XBT"];
+/// instrument names: internal `ins01..`, exchange `Sym01..`
 pub const INS_MAX: i64 = 12;
 
 fn ex_of(r: i64) -> ExchangeId {
@@ -125,10 +127,10 @@ fn ins_int_rank(n: &InstrumentNameInternal) -> i64 {
     n.name().strip_prefix("ins").and_then(|s| s.parse().ok()).unwrap_or(0)
 }
 fn ins_exc(n: i64) -> InstrumentNameExchange {
-    InstrumentNameExchange::new(format!("SYM{n:02}"))
+    InstrumentNameExchange::new(format!("Sym{n:02}"))
 }
 fn ins_exc_rank(n: &InstrumentNameExchange) -> i64 {
-    n.name().strip_prefix("SYM").and_then(|s| s.parse().ok()).unwrap_or(0)
+    n.name().strip_prefix("Sym").and_then(|s| s.parse().ok()).unwrap_or(0)
 }
 
 fn asset_of(v: &Value) -> Option<Asset> {
@@ -724,6 +726,27 @@ fn snapshot_result(ix: &AccountEventIndexer, from: ExchangeId, assets: &[i64], i
     })
 }
 
+/// names that differ from `name` only by ASCII case (all upper, all lower, one letter flipped),
+/// by a leading / trailing blank, or are a strict prefix / an extension of it - minus those that
+/// happen to be tracked names themselves
+fn lookalikes(name: &str, tracked: &[String]) -> Vec<String> {
+    let flip = |at: usize| name.char_indices().map(|(p, ch)| {
+        if p != at { ch } else if ch.is_ascii_uppercase() { ch.to_ascii_lowercase() } else { ch.to_ascii_uppercase() }
+    }).collect::<String>();
+    let letters: Vec<usize> = name.char_indices().filter(|(_, ch)| ch.is_ascii_alphabetic()).map(|(p, _)| p).collect();
+    let mut out = vec![name.to_ascii_uppercase(), name.to_ascii_lowercase(), format!(" {name}"), format!("{name} "),
+                       format!("{name}X"), format!("{name}0")];
+    if let (Some(first), Some(last)) = (letters.first(), letters.last()) {
+        out.push(flip(*first));
+        out.push(flip(*last));
+    }
+    if name.len() > 1 { out.push(name[..name.len() - 1].to_string()); }
+    out.sort();
+    out.dedup();
+    out.retain(|v| v != name && !tracked.contains(v));
+    out
+}
+
 fn cls(xk: i64) -> &'static str {
     if xk == 1 { "first-exchange" } else { "later-exchange" }
 }
@@ -918,6 +941,71 @@ pub fn check_c04(scn: &Value, rt: &tokio::runtime::Runtime) -> Report {
             let got = opt_idx(indexer.trade(utrade(&name)), |t| t.instrument.index());
             rep.same(&format!("indexer[{ex}].trade({name})"), &format!("trade:{c}"), &i_exp(exp), &json!(got));
         }
+        // ---- names that merely resemble a tracked name are unknown names ------------------------
+        // (NameToIndex is defined on the exact names: other case, surrounding blanks, prefixes and
+        //  extensions of a tracked name must be refused on every by-name and inbound route)
+        let tracked_a: Vec<String> = arr(m, "an").iter().map(|l| asset_exc(int(l)).name().to_string()).collect();
+        let tracked_i: Vec<String> = arr(m, "inn").iter().map(|l| ins_exc(int(l)).name().to_string()).collect();
+        let carrier = tracked_i.first().map(|n| InstrumentNameExchange::new(n.as_str()));
+        for name in &tracked_a {
+            for v in lookalikes(name, &tracked_a) {
+                let unknown = AssetNameExchange::new(v.as_str());
+                let mut probe = |what: &str, got: i64| {
+                    rep.same(&format!("{what}[{ex}](\"{v}\" - resembles tracked \"{name}\")"), &format!("unknown_name:{what}:{c}"), &json!(0), &json!(got));
+                };
+                probe("find_asset_index", opt_idx(map.find_asset_index(&unknown), |k| k.index()));
+                probe("asset_balance", opt_idx(indexer.asset_balance(ubalance(&unknown)), |b| b.asset.index()));
+                probe("account_event_balance", opt_idx(indexer.account_event(UnindexedAccountEvent { exchange: ex, kind: AccountEventKind::BalanceSnapshot(Snapshot(ubalance(&unknown))) }), |_| 0));
+                let snap = UnindexedAccountSnapshot { exchange: ex, balances: vec![ubalance(&AssetNameExchange::new(name.as_str())), ubalance(&unknown)], instruments: vec![] };
+                probe("snapshot_balance", opt_idx(indexer.snapshot(snap), |_| 0));
+                if let Some(carrier) = &carrier {
+                    // error payloads naming the asset, on an order / cancel response of a tracked instrument
+                    let rejected = OrderError::Rejected(ApiError::BalanceInsufficient(unknown.clone(), "x".into()));
+                    let mut order = uorder(ex, carrier, 0);
+                    order.state = OrderState::inactive(rejected.clone());
+                    probe("order_snapshot_error_asset", opt_idx(indexer.order_snapshot(order), |_| 0));
+                    let cancel = OrderResponseCancel { key: ukey(ex, carrier), state: Err(OrderError::Rejected(ApiError::AssetInvalid(unknown.clone(), "x".into()))) };
+                    probe("cancel_response_error_asset", opt_idx(indexer.order_response_cancel(cancel), |_| 0));
+                }
+            }
+            // (the exact name inside an error payload is translated to the asset it names)
+            if let Some(carrier) = &carrier {
+                let exact = AssetNameExchange::new(name.as_str());
+                let mut order = uorder(ex, carrier, 0);
+                order.state = OrderState::inactive(OrderError::Rejected(ApiError::BalanceInsufficient(exact.clone(), "x".into())));
+                let got = indexer.order_snapshot(order).ok().and_then(|o| match o.state {
+                    OrderState::Inactive(barter_execution::order::state::InactiveOrderState::OpenFailed(OrderError::Rejected(ApiError::BalanceInsufficient(a, _)))) => Some(a.index() as i64 + 1),
+                    _ => None,
+                }).unwrap_or(0);
+                let want = a_exp(&arr(m, "na")[(asset_exc_rank(&exact) - 1) as usize]);
+                rep.same(&format!("indexer[{ex}].order_snapshot(error payload naming {name})"), &format!("order_snapshot_error_asset:{c}"), &json!(want), &json!(got));
+            }
+        }
+        for name in &tracked_i {
+            for v in lookalikes(name, &tracked_i) {
+                let unknown = InstrumentNameExchange::new(v.as_str());
+                let mut probe = |what: &str, got: i64| {
+                    rep.same(&format!("{what}[{ex}](\"{v}\" - resembles tracked \"{name}\")"), &format!("unknown_name:{what}:{c}"), &json!(0), &json!(got));
+                };
+                probe("find_instrument_index", opt_idx(map.find_instrument_index(&unknown), |k| k.index()));
+                probe("order_key", opt_idx(indexer.order_key(ukey(ex, &unknown)), |_| 0));
+                probe("trade", opt_idx(indexer.trade(utrade(&unknown)), |_| 0));
+                probe("order_response_cancel", opt_idx(indexer.order_response_cancel(ucancel(ex, &unknown, true)), |_| 0));
+                for variant in 0..3 {
+                    probe("account_event_order", opt_idx(indexer.account_event(UnindexedAccountEvent { exchange: ex, kind: AccountEventKind::OrderSnapshot(Snapshot(uorder(ex, &unknown, variant))) }), |_| 0));
+                }
+                let tracked = InstrumentNameExchange::new(name.as_str());
+                let mut order = uorder(ex, &tracked, 0);
+                order.state = OrderState::inactive(OrderError::Rejected(ApiError::InstrumentInvalid(unknown.clone(), "x".into())));
+                probe("order_snapshot_error_instrument", opt_idx(indexer.order_snapshot(order), |_| 0));
+                let snap = UnindexedAccountSnapshot { exchange: ex, balances: vec![], instruments: vec![
+                    InstrumentAccountSnapshot { instrument: tracked.clone(), orders: vec![] },
+                    InstrumentAccountSnapshot { instrument: unknown.clone(), orders: vec![] },
+                ] };
+                probe("snapshot_instrument", opt_idx(indexer.snapshot(snap), |_| 0));
+            }
+        }
+
         // full snapshots: all own names; plus one further asset / instrument name (own -> fine, foreign -> refused)
         let own_a: Vec<i64> = arr(m, "an").iter().map(int).collect();
         let own_i: Vec<i64> = arr(m, "inn").iter().map(int).collect();
